@@ -2,7 +2,7 @@
 From H2V Require Import Base.Bytes Base.MachineInt Base.Result Gen.GenConsts Impl.ServerConn.
 From H2V Require Import Proofs.SrvBase Proofs.SrvRfcDefs Proofs.SrvRfcSpec Proofs.SrvRfcModel Proofs.SrvRfcSim Proofs.SrvRfcEff
   Proofs.SrvRfcSend Proofs.SrvRfcStep Proofs.SrvRfcKit Proofs.SrvRfcRl Proofs.SrvRfcSl Proofs.SrvRfcKnown Proofs.SrvRfcFrame
-  Proofs.SrvRfcBatch Proofs.SrvRfcFlush Proofs.SrvRfcMain.
+  Proofs.SrvRfcBatch Proofs.SrvRfcFlush Proofs.SrvRfcTimer Proofs.SrvRfcMain.
 From Coq Require Import ZArith Lia ZifyN ZifyNat ZifyBool.
 Local Open Scope N_scope.
 
@@ -25,9 +25,9 @@ Implicit Types c : sconn.
 
 (* ---------- one item ---------- *)
 
-Lemma step_all c s ph it : Post c s ph -> in_scope it = true -> step_goal c s ph it.
+Lemma step_all c s ph it : Post c s ph -> step_goal c s ph it.
 Proof.
-  intros [W P] Sc. destruct (sc_sl_done c) eqn:Hsl; [apply over_step; assumption|].
+  intros [W P]. destruct (sc_sl_done c) eqn:Hsl; [apply over_step; assumption|].
   rename P into HS. pose proof (S_aux _ _ _ _ HS) as [AT AH].
   destruct it as [i|sid r|l].
   - apply G_goal; [exact W|].
@@ -43,8 +43,7 @@ Proof.
       apply (G_conn_frame hstate dec_field enc_field enc_set_max cfg c s ph fr HS Hsl E0); auto.
       destruct KK as [[K _]|[K I0]]; [left; exact K | right; split; assumption].
   - apply Gloc_goal; [exact W | intros i; discriminate|]. apply G_done; assumption.
-  - apply Gloc_goal; [exact W | intros i; discriminate|]. apply G_local; [assumption | assumption|].
-    intro X. rewrite X in Sc. discriminate.
+  - apply Gloc_goal; [exact W | intros i; discriminate|]. apply G_local; assumption.
 Qed.
 
 (* ---------- the initial state ---------- *)
@@ -76,12 +75,11 @@ Fixpoint ph_run (ph : N -> RS.phase) (its : list item) : N -> RS.phase :=
 Lemma run_items_app c s a b : run_items c s (a ++ b) = let '(c1, s1) := run_items c s a in run_items c1 s1 b.
 Proof. revert c s. induction a as [|it a IH]; intros c s; cbn [app SrvRfcDefs.run_items]; [reflexivity | apply IH]. Qed.
 
-Lemma run_Post its : forall c s ph, Post c s ph -> forallb in_scope its = true ->
+Lemma run_Post its : forall c s ph, Post c s ph ->
   Post (fst (run_items c s its)) (snd (run_items c s its)) (ph_run ph its).
 Proof.
-  induction its as [|it t IH]; intros c s ph P Sc; cbn [SrvRfcDefs.run_items ph_run fst snd]; [exact P|].
-  cbn [forallb] in Sc. apply andb_true_iff in Sc. destruct Sc as [S1 S2].
-  destruct (step_all c s ph it P S1) as (_ & P' & _). apply IH; assumption.
+  induction its as [|it t IH]; intros c s ph P; cbn [SrvRfcDefs.run_items ph_run fst snd]; [exact P|].
+  destruct (step_all c s ph it P) as (_ & P' & _). apply IH; assumption.
 Qed.
 
 Lemma Post_R c s ph : Post c s ph -> R hstate c s.
@@ -94,7 +92,7 @@ Qed.
 
 Notation c_init := (init_conn cfg h0).
 
-Theorem reactions_allowed its : forallb in_scope its = true ->
+Theorem reactions_allowed its :
   R hstate (fst (run_items c_init RS.init its)) (snd (run_items c_init RS.init its)) /\
   forall pre it post, its = pre ++ it :: post ->
     let c := fst (run_items c_init RS.init pre) in
@@ -105,12 +103,11 @@ Theorem reactions_allowed its : forallb in_scope its = true ->
     | _ => True
     end.
 Proof.
-  intro Sc. split.
-  - eapply Post_R. apply run_Post; [apply Post_init | exact Sc].
-  - intros pre it post -> c s Hsl. rewrite forallb_app in Sc. apply andb_true_iff in Sc. destruct Sc as [S1 S2].
-    pose proof (run_Post pre _ _ _ Post_init S1) as P. fold c s in P.
-    cbn [forallb] in S2. apply andb_true_iff in S2. destruct S2 as [S2 _].
-    destruct (step_all c s _ it P S2) as (A & _). apply A, Hsl.
+  split.
+  - eapply Post_R. apply run_Post, Post_init.
+  - intros pre it post -> c s Hsl.
+    pose proof (run_Post pre _ _ _ Post_init) as P. fold c s in P.
+    destruct (step_all c s _ it P) as (A & _). apply A, Hsl.
 Qed.
 
 (* ---------- (c) a request is dispatched only from a complete sequence of frames ---------- *)
@@ -125,23 +122,22 @@ Proof.
   rewrite (N.eqb_sym sid). destruct (sf_sid fr =? sid); reflexivity.
 Qed.
 
-Theorem dispatch_only_legal its sid rq : forallb in_scope its = true ->
+Theorem dispatch_only_legal its sid rq :
   In (ODispatch sid rq) (trace (fst (run_items c_init RS.init its))) ->
   exists pre post, its = pre ++ post /\ RS.complete_request (frames_on sid pre) = true.
 Proof.
-  intros Sc Hin. unfold trace in Hin. apply in_rev in Hin. revert Sc Hin.
-  induction its as [|it its IH] using rev_ind; intros Sc Hin; [cbn in Hin; destruct Hin|].
-  rewrite forallb_app in Sc. apply andb_true_iff in Sc. destruct Sc as [S1 S2]. rewrite run_items_app in Hin.
-  pose proof (run_Post its _ _ _ Post_init S1) as P.
+  intros Hin. unfold trace in Hin. apply in_rev in Hin. revert Hin.
+  induction its as [|it its IH] using rev_ind; intros Hin; [cbn in Hin; destruct Hin|].
+  rewrite run_items_app in Hin.
+  pose proof (run_Post its _ _ _ Post_init) as P.
   destruct (run_items c_init RS.init its) as [c s] eqn:RI. cbn [fst snd] in *.
-  cbn [forallb] in S2. apply andb_true_iff in S2. destruct S2 as [S2 _].
-  destruct (step_all c s _ it P S2) as (_ & _ & Hd & (d & Ho)).
+  destruct (step_all c s _ it P) as (_ & _ & Hd & (d & Ho)).
   cbn [SrvRfcDefs.run_items fst] in Hin. rewrite Ho in Hin. apply in_app_or in Hin. destruct Hin as [Hin|Hin].
   - (* dispatched by this item *)
     assert (X : In (ODispatch sid rq) (new_out hstate c (feed c it))) by (rewrite (new_out_ext hstate _ _ _ Ho); apply in_rev; rewrite rev_involutive; exact Hin).
     pose proof (Hd sid rq X) as PD. exists (its ++ [it]), []. split; [rewrite app_nil_r; reflexivity|].
     unfold RS.complete_request. rewrite <- (ph_run_frames (its ++ [it]) (fun _ => RS.PStart) sid), <- ph_run_app. cbn [ph_run]. rewrite PD. reflexivity.
-  - destruct (IH S1 Hin) as (pre & post & E & C). exists pre, (post ++ [it]). split; [rewrite E, app_assoc; reflexivity | exact C].
+  - destruct (IH Hin) as (pre & post & E & C). exists pre, (post ++ [it]). split; [rewrite E, app_assoc; reflexivity | exact C].
 Qed.
 
 End Thm.
